@@ -149,6 +149,17 @@ impl Farm {
                     }
                 }
             }
+            if file.is_empty() {
+                // diagnostics without a usable span: look for the module name of a program in the text
+                let hay = format!("{} {}", msg, v["message"]["rendered"].as_str().unwrap_or(""));
+                if let Some(pos) = hay.find("p_") {
+                    let tail: String = hay[pos..].chars().take_while(|c| c.is_ascii_alphanumeric() || *c == '_').collect();
+                    let parts: Vec<&str> = tail.split('_').collect();
+                    if parts.len() >= 3 && parts[1].parse::<usize>().is_ok() && (parts[2] == "plain" || parts[2] == "deny") {
+                        file = format!("cases/p_{}_{}.rs", parts[1], parts[2]);
+                    }
+                }
+            }
             errors.push((file, msg));
         }
         if !out.status.success() && errors.is_empty() {
